@@ -185,8 +185,8 @@ impl Check for C03 {
     }
     fn budget(&self, tier: Tier) -> u64 {
         match tier {
-            Tier::Quick => 10_000,
-            Tier::Thorough => 300_000,
+            Tier::Quick => 40_000,
+            Tier::Thorough => 1_000_000,
         }
     }
     fn run(&self, ch: &mut Chooser, tier: Tier) -> RunOutcome {
